@@ -52,6 +52,15 @@ MISSED = {
     "C05-h": "ANAME, the one other type hickory models whose embedded name stays unfolded, was not in the generator: ANAME RRsets (with injected case variants as distinct RRs) joined it",
     "C09-h": "the end-to-end limits sub-property always passed both limits with soft <= hard: two more modes hand the builder only a hard limit (below the default soft limit) or a hard limit below the soft one",
     "C13-h": "every generated request had all header flags clear, as hickory's update builders leave them: RD, CD and AD are now set on 2 requests in 5 before signing, so a reply header that is MACed differently from what is sent fails the completeness clause",
+    "C08-h": "the forged end-to-end responses only renamed an NSEC; new sub-property `sound_stripped_proof_e2e` hands the validator the server's honest wildcard-expanded answer (asked for directly or reached through an in-zone CNAME) with every NSEC and its RRSIG removed: the expanded RRset must not come back Secure",
+    "C10-h": "the denial clause was checked by presence of NSEC3 records only: a NODATA answer for an existing name (also an empty non-terminal) from an NSEC3 zone must now carry the NSEC3 RR whose owner hash matches the query name (hash recomputed from the record's own parameters)",
+    "C11-g": "a record with a wrong RDLENGTH counted as 'RDATA not vetted' (FORMERR allowed, not required): class-IN A/AAAA records whose RDLENGTH is not 4/16 in a non-UPDATE request are generated in every section and count as malformed bodies",
+    "C11-h": "C11 only used the in-process front door, which has no TCP read loop: the `TimeoutStream` wrapper sub-property of C17 (now with a consumer that is busy between reads) is registered under C11 as `tcp_read_loop_idle_wrapper`",
+    "C15-g": "of the two readings of L the weaker one was asserted; the statement's own wording ('per-type clamped stored TTL') settles it: L is now the smallest *stored* TTL, clamped to the query type's bounds (DESIGN 12.5)",
+    "C15-h": "negative errors always carried the query they were stored under: 1 in 5 now carries a query of another type, or comes from a reply without question section; the cache key decides the bounds",
+    "C17-g": "the scripted socket recorded flushes but nothing looked at them: an idle stream must have flushed every octet it handed to the socket (a buffering transport sends on flush only)",
+    "C17-h": "the consumer of the idle-timeout wrapper always polled at once: it may now be busy for 1-400 ms between two reads while the next item is already there, which is not a silence of the peer",
+    "C18-g": "only a *joining* caller gave up in flight: in 1 de-duplication case in 6 the only caller now drops its lookup and the name is asked again; the later lookup must fare exactly as when the abandoned lookup had been for another name",
     "C19-h": "injected out-of-bailiwick records were A, NS, CNAME and TXT only: an NSEC record at a victim name (a 'denial proof' of somebody else's zone) joined the injection kinds",
     "C19-e": "aliases came as chains and loops only: 1 simulated internet in 13 now has an alias tree (2-3 CNAME records per owner, 4-5 levels) and the number of its names looked up per client query is held against the recursor's cap of 64",
 }
